@@ -4,14 +4,18 @@ monitor - every entry of an internal accessor documented "shall only be called w
 (3) history oracles - getter results of receiver-written entities must equal a state that existed during the call (known state
 sequence), internally consistent entities, every queued uplink message returned to exactly one reader; (4) lost-update oracle for the
 read-modify-write commands (train functions): with one writer thread per function, every function ends in the state its writer set
-last."""
+last; (5) the downlink stream written by all threads decodes strictly and carries per-node consecutive sequence numbers."""
 import hashlib
 from collections import Counter
 
 from .. import cfggen, fold, gen, model, runner, spec_lowlevel as S, statemodel
 from ..model import C
 from ..scen import Scn, call, up, s as S_
+from .C05 import seq_scan
 from .C07 import cfg_dir, gen_feedback
+
+# send functions without data bytes and without a response (no effect on the queue and state oracles)
+DATALESS = ['bidib_send_sys_enable', 'bidib_send_sys_disable']
 
 RECV_KINDS = ('segments', 'boosters', 'track_outputs', 'points_board', 'signals_board', 'peripherals', 'reversers')
 
@@ -70,7 +74,7 @@ def gen_scenario(ctx, k, flavour):
                 sc.add(f't {t} ' + call('bidib_set_train_peripheral', S_(f[0]), S_(f[1]), v, S_(to)))
                 last_set[f] = v
             elif r_ < 0.4:
-                nm, ad, a, data = gen.random_call(rng, rng.choice(addrs), names=zr, hot=0.2)
+                nm, ad, a, data = gen.random_call(rng, rng.choice(addrs), names=(DATALESS if rng.random() < 0.4 else zr), hot=0.2)
                 sc.add(f't {t} ' + call(nm, *S.tokens(nm, ad, a)))
             elif r_ < 0.5:
                 b = rng.choice(cfg['boards'])
@@ -199,6 +203,18 @@ def evaluate(ctx, r, cfg, nodes, last_set, npong, nt, meta):
                 if diffs:
                     ctx.violation('final-state', kind, f'after the concurrent phase {diffs[0][0]} is {diffs[0][2]}, the fold of the feedback says {diffs[0][1]}', r.scenario, r.flavour, meta)
                     return
+    # (5) the downlink stream is shared state too: whole packets, and per node consecutive sequence numbers in wire order
+    stream = b''.join(bytes.fromhex(e['hex']) for e in ev if e.get('e') == 'tx')
+    try:
+        wire = [model.parse_msg(x) for p in model.strict_deframe(stream) for x in model.split_messages(p['payload'])]
+    except model.FrameError as e:
+        ctx.violation('framing', 'wire', f'downlink stream of the concurrent session does not decode: {e}', r.scenario, r.flavour, meta)
+        return
+    bad, _ = seq_scan(wire, True)
+    if bad:
+        ctx.violation('wire-' + bad[0], 'seq', bad[1] + f'; {nt} application threads', r.scenario, r.flavour, meta)
+        return
+    ctx.count('wire_messages_checked', len(wire))
     ed = next((e for e in ev if e.get('e') == 'edges'), {})
     ctx.count('contract_checks', ed.get('contract_checks', 0))
     ctx.count('lock_operations', ed.get('lock_ops', 0))
